@@ -865,6 +865,7 @@ type ecase struct {
 	EC  int        `json:"ec"`
 	New []string   `json:"new"`
 	Any bool       `json:"any"`
+	Rl  int        `json:"rl"`
 	Res [][]string `json:"res"`
 }
 
@@ -884,6 +885,13 @@ var (
 )
 
 func runEdit(raw string) {
+	if runEditOnce(raw, false) {
+		runEditOnce(raw, true)
+	}
+}
+
+// runEditOnce replays one case; it reports whether the case should be replayed again with rangeLength.
+func runEditOnce(raw string, sendRl bool) (again bool) {
 	var c ecase
 	if err := json.Unmarshal([]byte(raw), &c); err != nil {
 		core.Fatalf("bad edit case %q: %v", raw, err)
@@ -898,7 +906,15 @@ func runEdit(raw string) {
 	uri := fmt.Sprintf("file:///e%d.sql", editCount)
 	text, nw := conc(c.T), conc(c.New)
 	open := frame(`{"jsonrpc":"2.0","method":"textDocument/didOpen","params":{"textDocument":{"uri":` + q(uri) + `,"languageId":"sql","version":1,"text":` + q(text) + `}}}`)
-	change := frame(`{"jsonrpc":"2.0","method":"textDocument/didChange","params":{"textDocument":{"uri":` + q(uri) + `,"version":2},"contentChanges":[{"range":` + lineRange(c.SL, c.SC, c.EL, c.EC) + `,"text":` + q(nw) + `}]}}`)
+	// where the model defines the replaced span's UTF-16 length, every other case sends it as rangeLength (as many
+	// clients do), and every case whose text is not ASCII does
+	rlField, withRl := "", ""
+	nonASCII := strings.ContainsAny(text, "é😀")
+	again = !sendRl && !c.Any && c.Rl >= 0 && nonASCII
+	if !c.Any && c.Rl >= 0 && (sendRl || !nonASCII && editCount%2 == 0) {
+		rlField, withRl = fmt.Sprintf(`,"rangeLength":%d`, c.Rl), "|with-rangeLength"
+	}
+	change := frame(`{"jsonrpc":"2.0","method":"textDocument/didChange","params":{"textDocument":{"uri":` + q(uri) + `,"version":2},"contentChanges":[{"range":` + lineRange(c.SL, c.SC, c.EL, c.EC) + rlField + `,"text":` + q(nw) + `}]}}`)
 	run.Eval(1)
 	whole := c.SL == 0 && c.SC == 0 && c.EL >= 3
 	if !whole {
@@ -948,7 +964,7 @@ func runEdit(raw string) {
 		if c.SL >= 1+strings.Count(text, "\n") || c.EL >= 1+strings.Count(text, "\n") {
 			where = "line-past-end"
 		}
-		fail("mirror-differs|edit|"+class+"|"+where, "after an incremental edit the mirror equals the text obtained under the protocol's position rules (UTF-16 columns, clamping)", got, allowed)
+		fail("mirror-differs|edit|"+class+"|"+where+withRl, "after an incremental edit the mirror equals the text obtained under the protocol's position rules (UTF-16 columns, clamping)", got, allowed)
 	}
 	if editCount%5000 == 1 {
 		run.Sample(map[string]any{"kind": "edit", "text": text, "range": []int{c.SL, c.SC, c.EL, c.EC}, "insert": nw, "allowed": allowed, "mirror": got})
@@ -956,4 +972,5 @@ func runEdit(raw string) {
 	// close to keep the server small
 	_, _ = editSrv.send(frame(`{"jsonrpc":"2.0","method":"textDocument/didClose","params":{"textDocument":{"uri":`+q(uri)+`}}}`), false)
 	editSrv.sent++
+	return again
 }
